@@ -1,7 +1,7 @@
 (* C10 — variable interpolation equals substituting the latest assigned value. *)
 From Coq Require Import List NArith Bool String.
 Import ListNotations.
-Require Import St Exp Proc1 Proc2 Proc3 Loop Doc VarProofs.
+Require Import St Exp Proc1 Proc2 Proc3 Loop Doc Eqd VarProofs.
 Open Scope string_scope.
 Definition same_output (f a b : string) : bool := str_eqb (out_of (run_doc f 0 a)) (out_of (run_doc f 0 b)).
 Example C10_examples : forallb (fun f => same_output f ".#dv v old
@@ -35,5 +35,23 @@ Theorem C10_assigned_value : forall s o s1 n vals name s3,
 Proof. exact assigned_value. Qed.
 Theorem C10_join : forall l s, l <> nil -> fst (args_text l s) = join_with [32%N] (texts l s).
 Proof. exact args_text_join. Qed.
+(* Later assignments affect only later uses: whatever its arguments, the assignment line changes the variable table and
+   the log and nothing else (nothing already written, no counter, no scope); a name other than the assigned one keeps
+   its value; an assignment restricted with -f to formats that do not name the current one changes nothing but the log *)
+Theorem C10_assignment_changes_only_the_table : forall s, exists f, macro_def_var s ~~ s <| ivars ::= f |>.
+Proof. exact def_var_changes_only_the_table. Qed.
+Theorem C10_assignment_keeps_other_names : forall s o s1 n vals name s3 other,
+  parse_opts specOptDef (args s) s = (o, s1) -> po_args o = n :: vals -> opt "f" o = None ->
+  inlines_text n s1 = (name, s3) -> str_eqb other name = false ->
+  assoc other (ivars (macro_def_var s)) = assoc other (ivars s).
+Proof. exact def_var_keeps_other_names. Qed.
+Theorem C10_assignment_for_other_formats_is_absent : forall s o s1 n vals f fs s',
+  parse_opts specOptDef (args s) s = (o, s1) -> po_args o = n :: vals -> opt "f" o = Some f ->
+  formats_of f s1 = (fs, s') -> existsb (str_eqb (format s)) fs = false ->
+  macro_def_var s ~~ s.
+Proof. exact def_var_for_other_formats_is_absent. Qed.
 Print Assumptions C10_use_is_value.
+Print Assumptions C10_assignment_changes_only_the_table.
+Print Assumptions C10_assignment_keeps_other_names.
+Print Assumptions C10_assignment_for_other_formats_is_absent.
 Print Assumptions C10_assigned_value.
